@@ -285,8 +285,8 @@ class GraphInitializers(collections.UserDict[str, "_core.Value"]):
             return
         value._graph = None
 
-    def __setitem__(self, key: str, value: _core.Value) -> None:
-        """Set an initializer for the graph."""
+    def _check_item(self, key: str, value: _core.Value) -> None:
+        """Raise if ``self[key] = value`` would be rejected. Changes nothing."""
         if not isinstance(value, _core.Value):
             raise TypeError(f"value must be a Value object, not {type(value)}")
         if not isinstance(key, str):
@@ -301,9 +301,13 @@ class GraphInitializers(collections.UserDict[str, "_core.Value"]):
             raise ValueError(
                 f"Value '{value}' is produced by a node and cannot be a graph initializer"
             )
+        self._check_can_own(value)
+
+    def __setitem__(self, key: str, value: _core.Value) -> None:
+        """Set an initializer for the graph."""
         # Perform all checks before renaming the value or releasing the previous holder
         # of the key so that when there is an error nothing is modified
-        self._check_can_own(value)
+        self._check_item(key, value)
         if not value.name:
             logger.info("Value %s does not have a name, setting it to '%s'", value, key)
             value.name = key
@@ -313,6 +317,19 @@ class GraphInitializers(collections.UserDict[str, "_core.Value"]):
             self._maybe_unset_graph(old_value)
         self._set_graph(value)
         super().__setitem__(key, value)
+
+    def update(self, other=(), /, **kwargs) -> None:
+        """Set several initializers. Every entry is checked before any is stored."""
+        items = dict(other, **kwargs)
+        for key, value in items.items():
+            self._check_item(key, value)
+        for key, value in items.items():
+            self[key] = value
+
+    def __ior__(self, other):
+        # UserDict.__ior__ writes to ``data`` directly and would bypass ownership tracking
+        self.update(other)
+        return self
 
     def __delitem__(self, key: str) -> None:
         """Delete an initializer from the graph."""
